@@ -259,10 +259,26 @@ def check_once_idiom(call, idiom, state_loop, ix, defs):
     if len(ins) != 1 or ins[0]["name"] != "insert" or not ix.precedes(ins[0], call):
         return "`needed` must be filled by a single insert before the call"
     wl = ix.enclosing(ins[0], ("while",))
-    the_if = [a for a in ix.ancestors(ins[0]) if a.get("k") == "if" and contains(a["then"], ins[0]) and wl is not None and contains(wl["body"], a)]
-    if len(the_if) != 1:
-        return "the insert into `needed` must sit under exactly one condition"
-    cj = conj_list(the_if[0]["cond"])
+    if wl is None:
+        return "the insert into `needed` is not inside a worklist loop"
+    # the conditions under which the insert runs inside the loop body: enclosing `if` / match arm (+ guard), earlier `if .. { continue }`
+    cj = []
+    wlc = peel(wl["cond"])
+    popped = binding_of_pat(wlc["pat"]["subs"][0]) if wlc.get("k") == "letexpr" and wlc["pat"].get("subs") else None
+    for c_, pol in norm_.path_conditions(ix, ins[0], upto=wl, arms=True):
+        if c_.get("k") == "armpat":
+            if not pol:
+                return "the insert into `needed` sits in a match arm that is only reached when an earlier arm did not match"
+            pp_ = c_["pat"]
+            if pp_.get("k") in ("pwild",) or (pp_.get("k") == "pbind" and "sub" not in pp_):
+                continue
+            cj.append({"k": "letexpr", "pat": pp_, "init": c_["scrut"], "ty": "bool"})
+            continue
+        if c_.get("k") == "mcall" and c_["name"] in ("insert", "contains") and popped is not None and len(c_["args"]) == 1 and is_local(c_["args"][0], popped[1]):
+            continue        # the visited test of the worklist (checked with the skips below)
+        cj.append(c_ if pol else {"k": "unary", "op": "!", "e": c_, "ty": "bool"})
+    if not cj:
+        return "the insert into `needed` must sit under a condition"
     info_b = None
     filter_conds = []          # (condition, id of the closure parameter that stands for the signal) from `.filter(|info| ..)` on the lookup
     for c in cj:
@@ -338,7 +354,13 @@ def check_once_idiom(call, idiom, state_loop, ix, defs):
     skips = [n for n in walk(loop["body"]) if n.get("k") in ("continue", "break", "return")]
     for sk in skips:
         a = [x for x in ix.ancestors(sk) if x.get("k") == "if" and contains(loop["body"], x)]
-        if len(a) != 1 or not any(x.get("k") == "mcall" and x["name"] in ("insert", "contains") and is_local(e_b and x["args"][0] or {}, e_b[1]) for x in walk(a[0]["cond"])):
+        cond_nodes = list(walk(a[0]["cond"])) if len(a) == 1 else []
+        for x in list(cond_nodes):
+            if x.get("k") == "local":          # `let is_new = visited.insert(e); if !is_new { continue }`
+                ini_ = simple_let_init(defs, x["id"])
+                if ini_ is not None:
+                    cond_nodes += list(walk(ini_))
+        if len(a) != 1 or not any(x.get("k") == "mcall" and x["name"] in ("insert", "contains") and is_local(e_b and x["args"][0] or {}, e_b[1]) for x in cond_nodes):
             return "a node may only be skipped when it was already visited"
     return None
 
@@ -803,8 +825,10 @@ def r046(ctx, fi, fu, sites):
         return None
 
     def sig(role, formula_has):
-        return lambda kind, site: kind == "signals" and site is not None and site["role"] == role and formula_has(bp.fshow(site["filter"]))
-    i_init_sig = idx("init_at", sig("zero", lambda t: "uses.init>0" in t and "!" not in t.split("uses.init>0")[0][-1:]))
+        roles = role if isinstance(role, tuple) else (role,)
+        return lambda kind, site: kind == "signals" and site is not None and site["role"] in roles and formula_has(bp.fshow(site["filter"]))
+    # (the init-use block may name its step `0` or `step`: R04.1 evaluates it under its guard either way)
+    i_init_sig = idx("init_at", sig(("zero", "step"), lambda t: "uses.init>0" in t and "!" not in t.split("uses.init>0")[0][-1:]))
     i_states0 = idx("init_at", lambda kind, site: kind == "states")
     i_other0 = idx("init_at", sig("step", lambda t: "uses.other>0" in t))
     u_next_only = idx("unroll", sig("prev", lambda t: "uses.next>0" in t))
